@@ -6,14 +6,18 @@
    the correspondence compares it with the output directory of combine byte
    for byte in all three combination modes.  PROVED for every input: what each
    worker writes (binary core), what a combined box contains, and that
-   different meshes produce no output.  The mode choice, the re-mapping of
-   offsets to box order and the text rewriting of the headers are in the
-   executable model and tied to the code by the correspondence (partial
-   proof, as for C05). *)
+   different meshes produce no output; AND one whole level in each of the
+   three modes, for any pair of layouts satisfying the condition under which
+   validate_combine_input picks the mode (theorems C06_level_..., C06_mode_...): the new
+   binary files and the offsets table in box order; the level-header rewrite;
+   and the WHOLE TOOL (C06_tool): the output directory is exactly the image of
+   the combined plotfile [combine_spec]. *)
 From AK Require Import Base.Prelude Bytes.Text Bytes.FabHeader Bytes.BinFile
   Reader.Select Reader.BoxRead Reader.Level Reader.ReadSpec
   Plotfile.TextHeader Taste.Taste Plotfile.Abstract
-  Writers.Colander Writers.ColanderProofs Writers.Combine Writers.CombineProofs.
+  Writers.Colander Writers.ColanderSpec Writers.ColanderProofs Writers.ColanderLevelProofs Writers.Combine Writers.CombineProofs
+  Writers.RelayoutProofs Writers.CombineLevelProofs Writers.CombineHeaderProofs Writers.CombineToolProofs
+  Plotfile.HeaderSpec Writers.ColanderPipeline.
 
 (* One pair of source boxes, each stored anywhere in its binary file: the
    worker writes exactly the image of the combined box. *)
@@ -40,6 +44,113 @@ Theorem C06_any_layout : forall f1 v1 v2 (jobs : list (Z * bytes * Z)) (pairs : 
           map (fun j => blen out0 + fab_offset merged j) (seq 0 (length pairs))).
 Proof. exact combine_at_spec. Qed.
 Print Assumptions C06_any_layout.
+
+(* MAIN STATEMENT.  For every pair of well-formed 3D plotfiles on the same
+   boxes (same number of levels, the same index ranges on every level), each
+   stored in ANY box -> file distribution and on-disk order, the first under
+   the standard level directories, and every pair of non-empty lists of
+   existing field names: the tool writes exactly the directory image of
+   [combine_spec v1 v2 (names1 ++ names2) pf1 pf2] - the first input's mesh,
+   time and geometry; in every box the components v1 of the first input followed
+   by the components v2 of the second, bit for bit; level headers with the new
+   field count, offsets and the two inputs' min/max rows side by side; a global
+   header naming the fields - whichever combination mode is picked. *)
+Theorem C06_tool : forall names1 names2 pf1 pf2 v1 v2,
+  wf_plotfile pf1 -> wf_plotfile pf2 -> std_dirs pf1 -> wf_rows pf1 -> wf_rows pf2 ->
+  same_mesh pf1 pf2 -> 3 <= g_ndims (pf_g pf1) -> 3 <= g_ndims (pf_g pf2) ->
+  names1 <> [] -> names2 <> [] ->
+  omap_all (field_index (field_keys (g_names (pf_g pf1)) [])) names1 = Some v1 ->
+  omap_all (field_index (field_keys (g_names (pf_g pf2)) [])) names2 = Some v2 ->
+  combine_tool names1 names2 (pf_disk pf1) (pf_disk pf2)
+  = Some (pf_disk (combine_spec v1 v2 (names1 ++ names2) pf1 pf2)).
+Proof. exact combine_refines. Qed.
+
+(* The level header: count, offsets, and every min/max row = the selected
+   columns of the first input's row followed by those of the second's. *)
+Theorem C06_level_header : forall nf1 nf2 cA cB v1 v2 offs,
+  wf_cellh true cA -> wf_cellh true cB -> c_indexes cA <> [] ->
+  length (c_indexes cB) = length (c_indexes cA) ->
+  Forall (fun r => blen r = nf1) (c_mins cA) -> Forall (fun r => blen r = nf1) (c_maxs cA) ->
+  Forall (fun r => blen r = nf2) (c_mins cB) -> Forall (fun r => blen r = nf2) (c_maxs cB) ->
+  v1 ++ v2 <> [] -> Forall (fun i => 0 <= i < nf1) v1 -> Forall (fun i => 0 <= i < nf2) v2 ->
+  length offs = length (c_indexes cA) ->
+  rewrite_level_header (print_cellh nf1 cA) (print_cellh nf2 cB) (blen v1 + blen v2) offs v1 v2
+  = Some (print_cellh (blen v1 + blen v2) (combined_cellh cA cB v1 v2 offs)).
+Proof. exact rewrite_level_header_print. Qed.
+
+(* ONE LEVEL, ANY PAIR OF LAYOUTS.  Two well-formed levels on the same boxes
+   (same number of boxes, box i of the same shape in both), each stored in any
+   box -> file distribution and on-disk order.  [merged_lv] is the level of
+   merged boxes (components v1 of the first followed by v2 of the second, C06_box_contents)
+   laid out under the first input's file names with the boxes of a file in box
+   order; it is well-formed.  In box-by-box mode the tool writes exactly its
+   binary files and its offsets table in box order, whatever the two layouts: *)
+Theorem C06_level_bybox : forall lv1 lv2 v1 v2 c1 c2,
+  wf_level lv1 = true -> wf_level lv2 = true -> length (lv_fabs lv2) = length (lv_fabs lv1) ->
+  let n := length (lv_fabs lv1) in
+  (forall i, (i < n)%nat -> Forall (fun j => 0 <= j < fab_nc (nth i (lv_fabs lv1) dummy_fab)) v1) ->
+  (forall i, (i < n)%nat -> Forall (fun j => 0 <= j < fab_nc (nth i (lv_fabs lv2) dummy_fab)) v2) ->
+  (forall i, (i < n)%nat -> fab_shape (nth i (lv_fabs lv2) dummy_fab) = fab_shape (nth i (lv_fabs lv1) dummy_fab)) ->
+  c_indexes c1 = map (fun fb => (fab_lo fb, fab_hi fb)) (lv_fabs lv1) ->
+  c_files c1 = map fst (cells_or_nil lv1) -> c_offsets c1 = map snd (cells_or_nil lv1) ->
+  c_files c2 = map fst (cells_or_nil lv2) -> c_offsets c2 = map snd (cells_or_nil lv2) ->
+  combine_level ByBox (lv_disk lv1) (lv_disk lv2) c1 c2 v1 v2
+  = Some (lv_disk (merged_lv lv1 lv2 v1 v2), map snd (cells_or_nil (merged_lv lv1 lv2 v1 v2)))
+  /\ wf_level (merged_lv lv1 lv2 v1 v2) = true.
+Proof.
+  intros lv1 lv2 v1 v2 c1 c2 W1 W2 Hn n H1 H2 H3 I1 F1 O1 F2 O2. split.
+  - exact (combine_level_bybox lv1 lv2 W1 W2 Hn v1 v2 H1 H2 H3 c1 c2 I1 F1 O1 F2 O2).
+  - exact (wf_merged lv1 lv2 W1 W2 Hn v1 v2 H1 H2 H3).
+Qed.
+
+(* by-offset mode: the same, when every box lies in a file of the same name in both inputs *)
+Theorem C06_level_byoffset : forall lv1 lv2 v1 v2 c1 c2,
+  wf_level lv1 = true -> wf_level lv2 = true -> length (lv_fabs lv2) = length (lv_fabs lv1) ->
+  let n := length (lv_fabs lv1) in
+  (forall i, (i < n)%nat -> Forall (fun j => 0 <= j < fab_nc (nth i (lv_fabs lv1) dummy_fab)) v1) ->
+  (forall i, (i < n)%nat -> Forall (fun j => 0 <= j < fab_nc (nth i (lv_fabs lv2) dummy_fab)) v2) ->
+  (forall i, (i < n)%nat -> fab_shape (nth i (lv_fabs lv2) dummy_fab) = fab_shape (nth i (lv_fabs lv1) dummy_fab)) ->
+  c_indexes c1 = map (fun fb => (fab_lo fb, fab_hi fb)) (lv_fabs lv1) ->
+  c_files c1 = map fst (cells_or_nil lv1) -> c_offsets c1 = map snd (cells_or_nil lv1) ->
+  c_files c2 = map fst (cells_or_nil lv2) -> c_offsets c2 = map snd (cells_or_nil lv2) ->
+  map fst (cells_or_nil lv2) = map fst (cells_or_nil lv1) ->
+  combine_level ByOffset (lv_disk lv1) (lv_disk lv2) c1 c2 v1 v2
+  = Some (lv_disk (merged_lv lv1 lv2 v1 v2), map snd (cells_or_nil (merged_lv lv1 lv2 v1 v2))).
+Proof.
+  intros lv1 lv2 v1 v2 c1 c2 W1 W2 Hn n H1 H2 H3 I1 F1 O1 F2 O2 S.
+  exact (combine_level_byoffset lv1 lv2 W1 W2 Hn v1 v2 H1 H2 H3 c1 c2 I1 F1 O1 F2 O2 S).
+Qed.
+
+(* file-by-file mode: the same, when in addition both inputs store the boxes of every file in box order *)
+Theorem C06_level_byfile : forall lv1 lv2 v1 v2 c1 c2,
+  wf_level lv1 = true -> wf_level lv2 = true -> length (lv_fabs lv2) = length (lv_fabs lv1) ->
+  let n := length (lv_fabs lv1) in
+  (forall i, (i < n)%nat -> Forall (fun j => 0 <= j < fab_nc (nth i (lv_fabs lv1) dummy_fab)) v1) ->
+  (forall i, (i < n)%nat -> Forall (fun j => 0 <= j < fab_nc (nth i (lv_fabs lv2) dummy_fab)) v2) ->
+  (forall i, (i < n)%nat -> fab_shape (nth i (lv_fabs lv2) dummy_fab) = fab_shape (nth i (lv_fabs lv1) dummy_fab)) ->
+  c_indexes c1 = map (fun fb => (fab_lo fb, fab_hi fb)) (lv_fabs lv1) ->
+  c_files c1 = map fst (cells_or_nil lv1) -> c_offsets c1 = map snd (cells_or_nil lv1) ->
+  c_files c2 = map fst (cells_or_nil lv2) -> c_offsets c2 = map snd (cells_or_nil lv2) ->
+  map fst (cells_or_nil lv2) = map fst (cells_or_nil lv1) ->
+  (forall name, In name (np_unique (map fst (cells_or_nil lv1))) -> increasing (offsets_in c1 name) = true) ->
+  (forall name, In name (np_unique (map fst (cells_or_nil lv1))) -> increasing (offsets_in c2 name) = true) ->
+  combine_level ByFile (lv_disk lv1) (lv_disk lv2) c1 c2 v1 v2
+  = Some (lv_disk (merged_lv lv1 lv2 v1 v2), map snd (cells_or_nil (merged_lv lv1 lv2 v1 v2))).
+Proof.
+  intros lv1 lv2 v1 v2 c1 c2 W1 W2 Hn n H1 H2 H3 I1 F1 O1 F2 O2 S A B.
+  exact (combine_level_byfile lv1 lv2 W1 W2 Hn v1 v2 H1 H2 H3 c1 c2 I1 F1 O1 F2 O2 S A B).
+Qed.
+
+(* The mode validate_combine_input picks implies the condition its workers
+   need, on every level: anything but box-by-box means equal file tables;
+   file-by-file means, moreover, offsets increasing with the box index inside
+   every file of both inputs.  (The pinned code compared instead of assigning
+   the by-offset mode: a fix: commit of KNOWN_FINDINGS.txt.) *)
+Theorem C06_mode_same_files : forall cs m, m <> ByBox -> choose_mode cs m <> ByBox -> Forall level_same_files cs.
+Proof. exact choose_mode_same_files. Qed.
+
+Theorem C06_mode_byfile : forall cs, choose_mode cs ByFile = ByFile -> Forall level_box_order cs.
+Proof. exact choose_mode_byfile. Qed.
 
 (* File-by-file mode: two files holding the same number of boxes, scanned in
    lock step to the end of both. *)
@@ -98,3 +209,70 @@ Example C06_example :
   = Some (encode_file [merge_fab [1] [0] a0 b0; merge_fab [1] [0] a1 b1],
           [0; fab_size (merge_fab [1] [0] a0 b0)]).
 Proof. vm_compute. reflexivity. Qed.
+(* non-vacuity of the tool theorem: two 3D plotfiles on the same two-level mesh;
+   the first stores level 1 in one file in the order (1, 0), the second in two
+   files; the tool model on the two images gives the image of the
+   specification (recomputed here) *)
+Definition ex3_g (names : list bytes) : gheader :=
+  {| g_version := [bs "HyperCLaw-V1.1"]; g_names := names;
+     g_ndims := 3; g_time := bs "0.5"; g_max_level := 1;
+     g_geo_low := [bs "0.0"; bs "0.0"; bs "0.0"]; g_geo_high := [bs "2.0"; bs "1.0"; bs "1.0"];
+     g_factors := [2]; g_grid_hi := [[1; 0; 0]; [3; 1; 1]]; g_steps := [7; 7];
+     g_dx := [[bs "1.0"; bs "1.0"; bs "1.0"]; [bs "0.5"; bs "0.5"; bs "0.5"]]; g_sys_coord := [bs "0"] |}.
+Definition ex3_bytes (n : nat) (c : ascii) : bytes := repeat c n.
+Definition ex3_level0 (nc : Z) (d : bytes) (rows : list token) : plevel :=
+  {| pl_boxes := {| lb_ncells := 1; lb_step_line := [bs "7"];
+                    lb_boxes := [[(bs "0.0", bs "2.0"); (bs "0.0", bs "1.0"); (bs "0.0", bs "1.0")]];
+                    lb_cell_dir := bs "Level_0"; lb_time_tok := bs "0.5" |};
+     pl_level := {| lv_fabs := [ {| fab_lo := [0; 0; 0]; fab_hi := [1; 0; 0]; fab_nc := nc; fab_data := d |} ];
+                    lv_files := [ (bs "Cell_D_00000", [0%nat]) ] |};
+     pl_mins := [rows]; pl_maxs := [rows] |}.
+Definition ex3_level1 (nc : Z) (d0 d1 : bytes) (rows : list token) (files : list (bytes * list nat)) : plevel :=
+  {| pl_boxes := {| lb_ncells := 2; lb_step_line := [bs "7"];
+                    lb_boxes := [[(bs "0.0", bs "1.0"); (bs "0.0", bs "1.0"); (bs "0.0", bs "1.0")];
+                                 [(bs "1.0", bs "2.0"); (bs "0.0", bs "1.0"); (bs "0.0", bs "1.0")]];
+                    lb_cell_dir := bs "Level_1"; lb_time_tok := bs "0.5" |};
+     pl_level := {| lv_fabs := [ {| fab_lo := [0; 0; 0]; fab_hi := [1; 1; 1]; fab_nc := nc; fab_data := d0 |};
+                                 {| fab_lo := [2; 0; 0]; fab_hi := [3; 1; 1]; fab_nc := nc; fab_data := d1 |} ];
+                    lv_files := files |};
+     pl_mins := [rows; rows]; pl_maxs := [rows; rows] |}.
+Definition ex3_A : plotfile :=
+  {| pf_g := ex3_g [bs "a"; bs "b"];
+     pf_levels := [ ex3_level0 2 (ex3_bytes 16 "a"%char ++ ex3_bytes 16 "b"%char) [bs "1.0"; bs "2.0"];
+                    ex3_level1 2 (ex3_bytes 64 "c"%char ++ ex3_bytes 64 "d"%char) (ex3_bytes 64 "e"%char ++ ex3_bytes 64 "f"%char)
+                               [bs "1.0"; bs "2.0"] [ (bs "Cell_D_00000", [1%nat; 0%nat]) ] ] |}.
+Definition ex3_B : plotfile :=
+  {| pf_g := ex3_g [bs "c"];
+     pf_levels := [ ex3_level0 1 (ex3_bytes 16 "x"%char) [bs "3.0"];
+                    ex3_level1 1 (ex3_bytes 64 "y"%char) (ex3_bytes 64 "z"%char) [bs "3.0"]
+                               [ (bs "Cell_D_00001", [0%nat]); (bs "Cell_D_00000", [1%nat]) ] ] |}.
+
+Ltac solve_good_step :=
+  match goal with
+  | |- _ /\ _ => split
+  | |- forall (k : nat) (pl : plevel), nth_error _ k = Some pl -> _ =>
+      intros [|[|[|k]]] pl H; cbn [nth_error] in H; try discriminate; injection H as <-; reflexivity
+  | |- ~ In _ _ => let H := fresh in intros H; cbn [In] in H; intuition discriminate
+  | |- ~ _ => let H := fresh in intros H; discriminate
+  | |- _ <> _ => discriminate
+  | |- _ \/ _ => first [left; reflexivity | right; reflexivity]
+  | |- _ => first [reflexivity | lia | constructor]
+  end.
+
+Example C06_ex_hyps : good ex3_A /\ good ex3_B /\ same_mesh ex3_A ex3_B.
+Proof.
+  unfold good, wf_plotfile, std_dirs, wf_counts, wf_rows, wf_gheader, same_mesh, wf_plevel, wf_lvboxes, no_char. cbn.
+  repeat solve_good_step.
+Qed.
+
+Example C06_ex_tool : combine_tool [bs "b"] [bs "c"] (pf_disk ex3_A) (pf_disk ex3_B)
+  = Some (pf_disk (combine_spec [1] [0] [bs "b"; bs "c"] ex3_A ex3_B)).
+Proof. vm_compute. reflexivity. Qed.
+
+Print Assumptions C06_tool.
+Print Assumptions C06_level_header.
+Print Assumptions C06_level_bybox.
+Print Assumptions C06_level_byoffset.
+Print Assumptions C06_level_byfile.
+Print Assumptions C06_mode_same_files.
+Print Assumptions C06_mode_byfile.
